@@ -103,6 +103,11 @@ def _smart_sort_obligations(mi, fn):
 @contract(f"{M}.smart_sort_scaffolds", properties=("C20", "C10"))
 class _:
     custom = staticmethod(_smart_sort_obligations)
+    # at call sites: list.sort rearranges the scaffold list in place and touches nothing else
+    params = {"self": TRef("Assembly")}
+    result = NONE
+    modifies = staticmethod(lambda o: [("list", TRef("Scaffold"), o.self.scaffolds)])
+    ensures = staticmethod(lambda o, n, res: n.self.scaffolds.len == o.self.scaffolds.len)
     note = "requires every scaffold's rank to be an int (None vs int would raise in tuple comparison); stated as input validity"
 
 
